@@ -860,7 +860,28 @@ func (p *sf2Pkg) doneShape(body *ast.BlockStmt) string {
 
 // sf2ReadsSocket: the body reads a socket itself, or calls by plain name a package-level function that does
 // (normalisation "socket read through a helper", see server_facts.go)
-func sf2ReadsSocket(p *sf2Pkg, body ast.Node, depth int) bool {
+// sf2OwnMethod: `r.m(…)` with r the receiver of `in` and m a method of the same base type (the normalisation "loop body
+// split into methods of the same receiver" of server_facts.go, applied to the spawn facts: such a method reading the
+// socket makes the loop a receive loop, and a value it returns from the loop buffer is a decoded value — that it does
+// not retain the buffer is checked by ServerFacts, which refuses the source otherwise)
+func sf2OwnMethod(p *sf2Pkg, c *ast.CallExpr, in *ast.FuncDecl) *sf2Func {
+	typ, recv := sfRecv(in)
+	sel, ok := c.Fun.(*ast.SelectorExpr)
+	if !ok || typ == "" {
+		return nil
+	}
+	id, ok := sel.X.(*ast.Ident)
+	if !ok || id.Name != recv {
+		return nil
+	}
+	h := p.byName[typ+"."+sel.Sel.Name]
+	if h == nil || h.fd.Recv == nil {
+		return nil
+	}
+	return h
+}
+
+func sf2ReadsSocket(p *sf2Pkg, body ast.Node, depth int, in *ast.FuncDecl) bool {
 	reads := false
 	ast.Inspect(body, func(n ast.Node) bool {
 		if c, ok := n.(*ast.CallExpr); ok {
@@ -869,9 +890,13 @@ func sf2ReadsSocket(p *sf2Pkg, body ast.Node, depth int) bool {
 				switch f.Sel.Name {
 				case "ReadFromUDP", "Accept", "ReadFull":
 					reads = true
+				default:
+					if h := sf2OwnMethod(p, c, in); h != nil && depth < 4 && sf2ReadsSocket(p, h.fd.Body, depth+1, h.fd) {
+						reads = true
+					}
 				}
 			case *ast.Ident:
-				if h := p.byName[f.Name]; h != nil && h.fd.Recv == nil && depth < 4 && sf2ReadsSocket(p, h.fd.Body, depth+1) {
+				if h := p.byName[f.Name]; h != nil && h.fd.Recv == nil && depth < 4 && sf2ReadsSocket(p, h.fd.Body, depth+1, h.fd) {
 					reads = true
 				}
 			}
@@ -1070,6 +1095,13 @@ func (p *sf2Pkg) noteStmt(ctx *sf2GoCtx, s ast.Stmt) {
 					}
 				}
 			}
+			if h := sf2OwnMethod(p, c, ctx.fn.fd); h != nil {
+				for _, a := range c.Args {
+					if ctx.outer[rootIdentOf(a)] {
+						ctx.decoded[id.Name] = h.display
+					}
+				}
+			}
 		}
 	case *ast.ExprStmt:
 		if c, ok := x.X.(*ast.CallExpr); ok {
@@ -1099,7 +1131,7 @@ func (p *sf2Pkg) walkGo(ctx *sf2GoCtx, list []ast.Stmt, out *[]sf2Spawn) error {
 				}
 			case *ast.ForStmt:
 				c := ctx.clone()
-				if sf2ReadsSocket(p, x.Body, 0) {
+				if sf2ReadsSocket(p, x.Body, 0, ctx.fn.fd) {
 					c.inLoop = true
 				}
 				return p.walkGo(c, x.Body.List, out)
